@@ -231,7 +231,7 @@ pub fn alists_qq(rng: &mut Rng, tag: usize) -> Template {
         forms: vec![
             format!("(define al{} (map (lambda (i) (cons i (list i 'v (* i i)))) (t-build {})))", tag, n),
             format!("(assv {} al{})", rng.range(0, n), tag),
-            format!("(define (tmpl{} a b) `(head ,a (mid ,b ,(+ a b)) #(1 2) tail))", tag),
+            format!("(define (tmpl{} a b) `(head ,a (mid ,b ,(+ a b)) #(1 2 inner-sym{}) tail . dotted-tail{}))", tag, tag, tag),
             format!("(map (lambda (p) (tmpl{} (car p) (length (cdr p)))) al{})", tag, tag),
             format!("(member (list 1 'v 1) (map cdr al{}))", tag),
         ],
